@@ -27,6 +27,8 @@ struct ModelGame {
     occ_fide: HashMap<Vec<u8>, u32>,
     /// occurrences keyed with the e.p. state "a pawn stands beside the pushed pawn" (what the library records)
     occ_lib: HashMap<Vec<u8>, u32>,
+    /// occurrences keyed by placement and side to move only (look-alikes that differ in rights / e.p.)
+    occ_look: HashMap<Vec<u8>, u32>,
     clock: u32,
     /// half-move index (in moves) at which castling rights last changed
     last_rights_change: Option<u32>,
@@ -43,7 +45,7 @@ fn key(p: &RPos, ep: bool) -> Vec<u8> {
 
 impl ModelGame {
     fn new(start: &RPos) -> ModelGame {
-        let mut g = ModelGame { start: start.clone(), cur: start.clone(), log: vec![], occ_fide: HashMap::new(), occ_lib: HashMap::new(), clock: 0, last_rights_change: None, nmoves: 0 };
+        let mut g = ModelGame { start: start.clone(), cur: start.clone(), log: vec![], occ_fide: HashMap::new(), occ_lib: HashMap::new(), occ_look: HashMap::new(), clock: 0, last_rights_change: None, nmoves: 0 };
         g.note_position();
         g
     }
@@ -52,6 +54,9 @@ impl ModelGame {
         let kl = key(&self.cur, self.cur.ep_pawn_adjacent());
         *self.occ_fide.entry(kf).or_insert(0) += 1;
         *self.occ_lib.entry(kl).or_insert(0) += 1;
+        let mut look = self.cur.sq.to_vec();
+        look.push(self.cur.stm);
+        *self.occ_look.entry(look).or_insert(0) += 1;
     }
     fn reps_fide(&self) -> u32 {
         *self.occ_fide.get(&key(&self.cur, self.cur.ep_legal_capture_exists())).unwrap_or(&0)
@@ -200,11 +205,25 @@ pub fn reversible_starts() -> Vec<&'static str> {
     ]
 }
 
+/// few-piece starts with pawns about to promote (a quiet promotion inside a long reversible game)
+pub fn promotion_starts() -> Vec<&'static str> {
+    vec![
+        "8/P7/K7/7k/8/8/8/8 w - - 0 1",
+        "8/8/8/8/7K/k7/p7/8 b - - 0 1",
+        "4k3/P6P/8/8/8/8/p6p/4K3 w - - 0 1",
+        "8/1P4k1/8/8/8/8/1K4p1/8 b - - 0 1",
+        "r3k3/7P/8/8/8/8/p7/4K2R w Kq - 0 1",
+        "8/3P4/8/1k6/8/8/3p4/5K2 w - - 0 1",
+    ]
+}
+
 #[derive(Clone, Copy, PartialEq)]
 enum Policy {
     Random,
     Seek,
     Avoid,
+    /// like Avoid, but at one chosen half-move a pawn move (preferably a quiet promotion) is played
+    AvoidBreak(u32),
 }
 
 fn choose_move(rng: &mut Rng, m: &ModelGame, legal: &[RMove], pol: Policy) -> RMove {
@@ -215,7 +234,10 @@ fn choose_move(rng: &mut Rng, m: &ModelGame, legal: &[RMove], pol: Policy) -> RM
             let mut best: Vec<RMove> = vec![];
             for mv in legal {
                 let np = m.cur.make(*mv);
-                if m.occ_fide.contains_key(&key(&np, np.ep_legal_capture_exists())) {
+                let mut look = np.sq.to_vec();
+                look.push(np.stm);
+                // exact repetitions, and look-alikes (same placement, other rights) which must NOT count
+                if m.occ_fide.contains_key(&key(&np, np.ep_legal_capture_exists())) || (m.occ_look.contains_key(&look) && rng.chance(1, 2)) {
                     best.push(*mv);
                 }
             }
@@ -230,6 +252,18 @@ fn choose_move(rng: &mut Rng, m: &ModelGame, legal: &[RMove], pol: Policy) -> RM
                 }
             }
         }
+        Policy::AvoidBreak(at) if m.nmoves == at || m.nmoves == at + 1 => {
+            let quiet_promo: Vec<RMove> = legal.iter().cloned().filter(|mv| mv.promo != 0 && !m.cur.is_capture(*mv) && m.cur.make(*mv).has_legal_move()).collect();
+            let pawn: Vec<RMove> = legal.iter().cloned().filter(|mv| kind(m.cur.sq[mv.from as usize]) == P && m.cur.make(*mv).has_legal_move()).collect();
+            if !quiet_promo.is_empty() {
+                *rng.pick(&quiet_promo)
+            } else if !pawn.is_empty() {
+                *rng.pick(&pawn)
+            } else {
+                choose_move(rng, m, legal, Policy::Avoid)
+            }
+        }
+        Policy::AvoidBreak(_) => choose_move(rng, m, legal, Policy::Avoid),
         Policy::Avoid => {
             // reversible, not ending the game, never a third occurrence; keep castling rights for a while
             let mut ok: Vec<RMove> = vec![];
@@ -289,6 +323,7 @@ impl GameMon {
             Policy2::Random => Policy::Random,
             Policy2::Seek => Policy::Seek,
             Policy2::Avoid => Policy::Avoid,
+            Policy2::AvoidBreak => Policy::AvoidBreak(rng.range(4, 90) as u32),
         };
         let fen = start.fen();
         let g = if fen == RPos::startpos().fen() && rng.chance(1, 2) {
@@ -317,7 +352,7 @@ impl GameMon {
         let mut poke_after_result = rng.range(4, 14);
         // chatter: how often non-move actions are interleaved
         let chatter = match pol {
-            Policy::Avoid => 2,
+            Policy::Avoid | Policy::AvoidBreak(_) => 2,
             _ => *rng.pick(&[0u64, 5, 15, 30]),
         };
         let mut prev_legal: Vec<RMove> = vec![];
@@ -400,10 +435,24 @@ impl GameMon {
                     }
                     _ => {
                         // illegal move attempt: random triple, or a move that was legal one ply ago
-                        let m = if !prev_legal.is_empty() && rng.chance(1, 2) {
-                            *rng.pick(&prev_legal)
-                        } else {
-                            RMove::new(rng.below(64) as u8, rng.below(64) as u8, *rng.pick(&[0, 0, 0, Q, N]))
+                        let m = match rng.below(4) {
+                            0 if !prev_legal.is_empty() => *rng.pick(&prev_legal),
+                            1 if !legal.is_empty() => {
+                                // a legal source/destination with the wrong promotion field
+                                let l = *rng.pick(&legal);
+                                let promo = if l.promo == 0 { *rng.pick(&[Q, R, B, N, K, P]) } else { *rng.pick(&[0, K, P]) };
+                                RMove::new(l.from, l.to, promo)
+                            }
+                            2 if !legal.is_empty() => {
+                                // pseudo-legal but illegal (leaves the king in check), if any
+                                let ps: Vec<RMove> = run.m.cur.pseudo().into_iter().filter(|x| !legal.contains(x)).collect();
+                                if ps.is_empty() {
+                                    RMove::new(rng.below(64) as u8, rng.below(64) as u8, 0)
+                                } else {
+                                    *rng.pick(&ps)
+                                }
+                            }
+                            _ => RMove::new(rng.below(64) as u8, rng.below(64) as u8, *rng.pick(&[0, 0, 0, Q, N])),
                         };
                         self.try_move(&mut run, m, rho, &legal, rep);
                     }
@@ -452,7 +501,17 @@ impl GameMon {
             rep.violation(sig, format!("make_move({}) = {} ; {}", m.uci(), r, run.ctx()));
         }
         if r && is_legal {
+            if m.promo != 0 && !run.m.cur.is_capture(m) {
+                rep.count("ev_quiet_promotions_played");
+            }
+            if run.m.cur.is_castle(m) {
+                rep.count("ev_castlings_played");
+            }
+            let before = run.m.cur.castle;
             run.m.apply_move(m);
+            if run.m.cur.castle != before {
+                rep.count("ev_rights_changes_played");
+            }
         } else if r {
             run.dead = true;
         }
@@ -562,6 +621,7 @@ pub enum Policy2 {
     Random,
     Seek,
     Avoid,
+    AvoidBreak,
 }
 
 pub fn run_game(ctx: &Ctx, rep: &mut Report, c10: bool, c11: bool) {
@@ -569,10 +629,15 @@ pub fn run_game(ctx: &Ctx, rep: &mut Report, c10: bool, c11: bool) {
     let mon = GameMon { c10, c11 };
     let corpus = corpus_positions();
     let rev: Vec<RPos> = reversible_starts().iter().map(|f| RPos::from_fen(f).unwrap()).collect();
+    let promo: Vec<RPos> = promotion_starts().iter().map(|f| RPos::from_fen(f).unwrap()).collect();
     let n = if c11 { ctx.budget(2500, 25_000, 1, 60) } else { ctx.budget(12_000, 150_000, 2, 200) };
     ctx.cases(rep, "games", n, |gid, rng, rep| {
         let (start, pol, len) = if c11 {
-            match rng.below(6) {
+            match rng.below(8) {
+                6 | 7 => {
+                    let f = promo[rng.below(promo.len())].clone();
+                    (if rng.chance(1, 2) { f } else { f.mirror_v() }, Policy2::AvoidBreak, 250)
+                }
                 0 | 1 => (rev[rng.below(rev.len())].clone(), Policy2::Avoid, 260),
                 2 | 3 => (rev[rng.below(rev.len())].clone(), Policy2::Seek, 60),
                 4 => {
